@@ -56,7 +56,7 @@ type mutInst struct {
 // checked: histories whose oracles have been evaluated already in this process. BFS reaches a
 // state by replaying its history from a fresh instance; the state-evolving part of a step is
 // always executed, the (pure) oracle part only the first time a history is seen.
-var checked = map[uint64]struct{}{}
+var checked = map[uint64]*mc.Fail{} // history code -> contents verdict of its last step
 
 // pool of instances (the search is serial inside a worker): avoids allocating and clearing ~8 KiB
 // of iterator storage per replay.
@@ -119,15 +119,17 @@ func (m model) pred(idx int) int {
 // every state must not hide the others); the history is kept by the instance.
 var softFail func(sig, what string, hist []string)
 
+// lastMutHist is the history of the step in progress (for the watchdog).
+var lastMutHist []string
+
 func (in *mutInst) Apply(op string) *mc.Fail {
 	in.hist = append(in.hist, op)
+	lastMutHist = in.hist
+	progress++
 	in.hcode = in.hcode*12 + uint64(opIndex(op))
 	hkey := in.hcode<<4 | uint64(len(in.hist))
-	_, seen := checked[hkey]
+	prevVerdict, seen := checked[hkey]
 	first := !seen
-	if first {
-		checked[hkey] = struct{}{}
-	}
 	if first {
 		in.makeGen() // iterators created BEFORE the update
 	} else {
@@ -290,7 +292,11 @@ func (in *mutInst) Apply(op string) *mc.Fail {
 		}
 		softFail(sig, x[1], in.hist)
 	}
-	return hard
+	if first {
+		checked[hkey] = hard
+		return hard
+	}
+	return prevVerdict // replay of a history whose last step has been evaluated before
 }
 
 func work0(t reader) *database.VerifTreapIterator {
